@@ -56,142 +56,6 @@ Qed.
 
 Definition content (m : fsmap) (p : path) : option str := option_map f_data (lookup p m).
 
-(* ---------- one save, step by step ---------- *)
-
-Section OneSave.
-  Variable s : state.
-  Variable f : path.
-  Variable new : str.
-
-  Definition tmpmode : N :=
-    match lookup (tmp_name f) (st_fs s) with
-    | Some old => f_mode old
-    | None => N.ldiff 438 (st_umask s)
-    end.
-
-  (* after open and a write of d: only the temporary file differs *)
-  Definition st_written (d : str) : state :=
-    mkstate (set (tmp_name f) (mkfile d tmpmode) (set (tmp_name f) (mkfile [] tmpmode) (st_fs s)))
-            (fd_set 0 (Some (tmp_name f)) (st_fds s)) (st_umask s).
-
-  Lemma exec_open :
-    exec [Open 0 (tmp_name f) 438] s =
-    mkstate (set (tmp_name f) (mkfile [] tmpmode) (st_fs s)) (fd_set 0 (Some (tmp_name f)) (st_fds s)) (st_umask s).
-  Proof.
-    unfold exec, tmpmode. cbn [fold_left step fst].
-    destruct (lookup (tmp_name f) (st_fs s)); reflexivity.
-  Qed.
-
-  Lemma step_open_ok : snd (step s (Open 0 (tmp_name f) 438)) = None.
-  Proof. reflexivity. Qed.
-
-  Lemma exec_open_write d :
-    exec [Open 0 (tmp_name f) 438; Write 0 d] s = st_written d.
-  Proof.
-    change (exec [Open 0 (tmp_name f) 438; Write 0 d] s)
-      with (fst (step (exec [Open 0 (tmp_name f) 438] s) (Write 0 d))).
-    rewrite exec_open. cbn [step st_fds st_fs st_umask].
-    rewrite fd_lookup_set_eq, lookup_set_eq. reflexivity.
-  Qed.
-
-  Lemma step_write_ok d : snd (step (exec [Open 0 (tmp_name f) 438] s) (Write 0 d)) = None.
-  Proof.
-    rewrite exec_open. cbn [step st_fds st_fs st_umask].
-    rewrite fd_lookup_set_eq, lookup_set_eq. reflexivity.
-  Qed.
-
-  Definition st_closed (d : str) : state :=
-    mkstate (st_fs (st_written d)) (fd_remove 0 (st_fds (st_written d))) (st_umask s).
-
-  Lemma step_close d : step (st_written d) (Close 0) = (st_closed d, None).
-  Proof.
-    unfold st_written, st_closed. cbn [step st_fds st_fs st_umask].
-    rewrite fd_lookup_set_eq. reflexivity.
-  Qed.
-
-  Lemma exec_open_write_close d :
-    exec [Open 0 (tmp_name f) 438; Write 0 d; Close 0] s = st_closed d.
-  Proof.
-    change (exec [Open 0 (tmp_name f) 438; Write 0 d; Close 0] s)
-      with (fst (step (exec [Open 0 (tmp_name f) 438; Write 0 d] s) (Close 0))).
-    rewrite exec_open_write, step_close. reflexivity.
-  Qed.
-
-  Lemma lookup_written_tmp d : lookup (tmp_name f) (st_fs (st_written d)) = Some (mkfile d tmpmode).
-  Proof. unfold st_written. cbn [st_fs]. apply lookup_set_eq. Qed.
-
-  Lemma lookup_written_other d p : p <> tmp_name f -> lookup p (st_fs (st_written d)) = lookup p (st_fs s).
-  Proof.
-    intro H. unfold st_written. cbn [st_fs].
-    rewrite lookup_set_neq by exact H. apply lookup_set_neq. exact H.
-  Qed.
-
-  Definition st_saved : state :=
-    mkstate (set f (mkfile new tmpmode) (remove (tmp_name f) (st_fs (st_written new))))
-            (fd_renamed (tmp_name f) f (st_fds (st_closed new))) (st_umask s).
-
-  Lemma step_rename : step (st_closed new) (Rename (tmp_name f) f) = (st_saved, None).
-  Proof.
-    unfold st_closed at 1. cbn [step st_fs].
-    rewrite lookup_written_tmp.
-    rewrite (str_eqb_neq _ _ (tmp_name_neq f)). reflexivity.
-  Qed.
-
-  Lemma exec_save : exec (save_ops f new) s = st_saved.
-  Proof.
-    unfold save_ops.
-    change (exec [Open 0 (tmp_name f) 438; Write 0 new; Close 0; Rename (tmp_name f) f] s)
-      with (fst (step (exec [Open 0 (tmp_name f) 438; Write 0 new; Close 0] s) (Rename (tmp_name f) f))).
-    rewrite exec_open_write_close, step_rename. reflexivity.
-  Qed.
-
-  Lemma lookup_saved_f : lookup f (st_fs st_saved) = Some (mkfile new tmpmode).
-  Proof. unfold st_saved. cbn [st_fs]. apply lookup_set_eq. Qed.
-
-  Lemma lookup_saved_tmp : lookup (tmp_name f) (st_fs st_saved) = None.
-  Proof.
-    unfold st_saved. cbn [st_fs]. rewrite lookup_set_neq by apply tmp_name_neq.
-    apply lookup_remove_eq.
-  Qed.
-
-  Lemma lookup_saved_other p :
-    p <> tmp_name f -> p <> f -> lookup p (st_fs st_saved) = lookup p (st_fs s).
-  Proof.
-    intros H1 H2. unfold st_saved. cbn [st_fs].
-    rewrite lookup_set_neq by exact H2. rewrite lookup_remove_neq by exact H1.
-    apply lookup_written_other. exact H1.
-  Qed.
-
-  (* every crash point of one save: a path other than the temporary one has its
-     previous entry, or (after the rename) p = f holds exactly `new` *)
-  Lemma save_crash t p :
-    crash_of (save_ops f new) t -> p <> tmp_name f ->
-    lookup p (st_fs (exec t s)) = lookup p (st_fs s) \/
-    (t = save_ops f new /\ p = f /\ content (st_fs (exec t s)) p = Some new).
-  Proof.
-    intros Hc Hp. inversion Hc as [k|k fd data n Hn]; subst.
-    - destruct k as [|[|[|[|k]]]];
-        [cbn [firstn save_ops] | cbn [firstn save_ops] | cbn [firstn save_ops] | cbn [firstn save_ops] |
-         replace (firstn (S (S (S (S k)))) (save_ops f new)) with (save_ops f new)
-           by (symmetry; apply firstn_all2; simpl; lia)].
-      + left. reflexivity.
-      + left. rewrite exec_open. cbn [st_fs]. apply lookup_set_neq. exact Hp.
-      + left. rewrite exec_open_write. apply lookup_written_other. exact Hp.
-      + left. rewrite exec_open_write_close. unfold st_closed. cbn [st_fs].
-        apply lookup_written_other. exact Hp.
-      + rewrite exec_save.
-        destruct (str_eqb p f) eqn:E.
-        * apply str_eqb_spec in E. subst p. right. split; [reflexivity|]. split; [reflexivity|].
-          unfold content. rewrite lookup_saved_f. reflexivity.
-        * left. apply lookup_saved_other; [exact Hp|].
-          intro; subst. rewrite str_eqb_refl in E. discriminate.
-    - destruct k as [|[|[|[|k]]]]; cbn [nth_error save_ops] in Hn; try discriminate.
-      + inversion Hn; subst. cbn [firstn save_ops app]. left.
-        rewrite exec_open_write. apply lookup_written_other. exact Hp.
-      + destruct k; discriminate.
-  Qed.
-End OneSave.
-
 (* ---------- crash points of a concatenation ---------- *)
 
 Lemma exec_app a b s : exec (a ++ b) s = exec b (exec a s).
@@ -227,6 +91,200 @@ Qed.
 Lemma crash_of_full a : crash_of a a.
 Proof. rewrite <- (firstn_all a) at 2. apply crash_prefix. Qed.
 
+(* ---------- one save, step by step ---------- *)
+
+(* while a save is under way only the temporary file differs from the state s
+   in which the save started *)
+Definition tmp_only (s s' : state) (tmp : path) : Prop :=
+  forall p, p <> tmp -> lookup p (st_fs s') = lookup p (st_fs s).
+
+Record writing (s s' : state) (tmp : path) (d : str) (m : N) : Prop := {
+  wr_only : tmp_only s s' tmp;
+  wr_tmp : lookup tmp (st_fs s') = Some (mkfile d m);
+  wr_fd : fd_lookup 0 (st_fds s') = Some (Some tmp)
+}.
+
+Record closed (s s' : state) (tmp : path) (d : str) (m : N) : Prop := {
+  cl_only : tmp_only s s' tmp;
+  cl_tmp : lookup tmp (st_fs s') = Some (mkfile d m)
+}.
+
+Lemma tmp_only_refl s tmp : tmp_only s s tmp.
+Proof. intros p _. reflexivity. Qed.
+
+Lemma step_openexcl_taken s tmp f0 :
+  lookup tmp (st_fs s) = Some f0 -> step s (OpenExcl 0 tmp 438) = (s, Some EEXIST).
+Proof. intro H. cbn [step]. rewrite H. reflexivity. Qed.
+
+Lemma step_openexcl_free s tmp :
+  lookup tmp (st_fs s) = None ->
+  snd (step s (OpenExcl 0 tmp 438)) = None /\
+  writing s (fst (step s (OpenExcl 0 tmp 438))) tmp [] (N.ldiff 438 (st_umask s)).
+Proof.
+  intro H. cbn [step]. rewrite H. cbn [fst snd]. split; [reflexivity|]. constructor; cbn [st_fs st_fds].
+  - intros p Hp. apply lookup_set_neq. exact Hp.
+  - apply lookup_set_eq.
+  - apply fd_lookup_set_eq.
+Qed.
+
+Lemma step_write s s' tmp d m d' :
+  writing s s' tmp d m ->
+  snd (step s' (Write 0 d')) = None /\ writing s (fst (step s' (Write 0 d'))) tmp (d ++ d') m.
+Proof.
+  intros [Ho Ht Hf]. cbn [step]. rewrite Hf, Ht. cbn [fst snd f_data f_mode]. split; [reflexivity|].
+  constructor; cbn [st_fs st_fds].
+  - intros p Hp. cbn [st_fs]. rewrite lookup_set_neq by exact Hp. apply Ho. exact Hp.
+  - apply lookup_set_eq.
+  - exact Hf.
+Qed.
+
+Lemma step_close s s' tmp d m :
+  writing s s' tmp d m ->
+  snd (step s' (Close 0)) = None /\ closed s (fst (step s' (Close 0))) tmp d m.
+Proof.
+  intros [Ho Ht Hf]. cbn [step]. rewrite Hf. cbn [fst snd]. split; [reflexivity|].
+  constructor; cbn [st_fs]; assumption.
+Qed.
+
+Lemma step_chmod_tmp s s' tmp d m m' :
+  closed s s' tmp d m ->
+  snd (step s' (Chmod tmp m')) = None /\ closed s (fst (step s' (Chmod tmp m'))) tmp d m'.
+Proof.
+  intros [Ho Ht]. cbn [step]. rewrite Ht. cbn [fst snd f_data]. split; [reflexivity|].
+  constructor; cbn [st_fs].
+  - intros p Hp. cbn [st_fs]. rewrite lookup_set_neq by exact Hp. apply Ho. exact Hp.
+  - apply lookup_set_eq.
+Qed.
+
+Lemma step_rename_tmp s s' tmp f d m :
+  closed s s' tmp d m -> tmp <> f ->
+  snd (step s' (Rename tmp f)) = None /\
+  lookup f (st_fs (fst (step s' (Rename tmp f)))) = Some (mkfile d m) /\
+  lookup tmp (st_fs (fst (step s' (Rename tmp f)))) = None /\
+  (forall p, p <> tmp -> p <> f -> lookup p (st_fs (fst (step s' (Rename tmp f)))) = lookup p (st_fs s)).
+Proof.
+  intros [Ho Ht] Hne. cbn [step]. rewrite Ht. rewrite (str_eqb_neq _ _ Hne). cbn [fst snd st_fs].
+  split; [reflexivity|]. split; [apply lookup_set_eq|]. split.
+  - rewrite lookup_set_neq by exact Hne. apply lookup_remove_eq.
+  - intros p H1 H2. rewrite lookup_set_neq by exact H2. rewrite lookup_remove_neq by exact H1.
+    apply Ho. exact H1.
+Qed.
+
+Lemma step_unlink_tmp s s' tmp f0 :
+  tmp_only s s' tmp -> lookup tmp (st_fs s') = Some f0 ->
+  snd (step s' (Unlink tmp)) = None /\
+  tmp_only s (fst (step s' (Unlink tmp))) tmp /\
+  lookup tmp (st_fs (fst (step s' (Unlink tmp)))) = None.
+Proof.
+  intros Ho Ht. cbn [step]. rewrite Ht. cbn [fst snd st_fs]. split; [reflexivity|]. split.
+  - intros p Hp. cbn [st_fs]. rewrite lookup_remove_neq by exact Hp. apply Ho. exact Hp.
+  - apply lookup_remove_eq.
+Qed.
+
+Lemma exec_snoc ops o s : exec (ops ++ [o]) s = fst (step (exec ops s) o).
+Proof. unfold exec. rewrite fold_left_app. reflexivity. Qed.
+
+Lemma firstn_nil_any {A} k : firstn k (@nil A) = [].
+Proof. destruct k; reflexivity. Qed.
+
+Section OneSave.
+  Variable s : state.
+  Variable f : path.
+  Variable new : str.
+  Hypothesis Hfree : lookup (tmp_name f) (st_fs s) = None.
+
+  Let tmp := tmp_name f.
+  Let tm := N.ldiff 438 (st_umask s).
+  Let A := [OpenExcl 0 tmp 438; Write 0 new; Close 0].
+  (* the mode the new file gets *)
+  Definition final_mode : N :=
+    match lookup f (st_fs s) with Some old => f_mode old | None => N.ldiff 438 (st_umask s) end.
+  Let chm := match lookup f (st_fs s) with Some old => [Chmod tmp (f_mode old)] | None => [] end.
+
+  Lemma save_ops_free : save_ops s f new = A ++ chm ++ [Rename tmp f].
+  Proof. unfold save_ops. rewrite Hfree. reflexivity. Qed.
+
+  Lemma exec_open_w : writing s (exec [OpenExcl 0 tmp 438] s) tmp [] tm.
+  Proof. apply (step_openexcl_free s tmp Hfree). Qed.
+
+  Lemma exec_write_w d : writing s (exec [OpenExcl 0 tmp 438; Write 0 d] s) tmp d tm.
+  Proof.
+    change [OpenExcl 0 tmp 438; Write 0 d] with ([OpenExcl 0 tmp 438] ++ [Write 0 d]).
+    rewrite exec_snoc. apply (step_write s _ tmp [] tm d exec_open_w).
+  Qed.
+
+  Lemma exec_A_closed : closed s (exec A s) tmp new tm.
+  Proof.
+    change A with ([OpenExcl 0 tmp 438; Write 0 new] ++ [Close 0]).
+    rewrite exec_snoc. apply (step_close s _ tmp new tm (exec_write_w new)).
+  Qed.
+
+  Lemma exec_chm_closed : closed s (exec (A ++ chm) s) tmp new final_mode.
+  Proof.
+    unfold chm, final_mode. destruct (lookup f (st_fs s)) as [old|].
+    - rewrite exec_snoc. apply (step_chmod_tmp s _ tmp new tm (f_mode old) exec_A_closed).
+    - rewrite app_nil_r. exact exec_A_closed.
+  Qed.
+
+  Lemma exec_save_all :
+    lookup f (st_fs (exec (save_ops s f new) s)) = Some (mkfile new final_mode) /\
+    lookup tmp (st_fs (exec (save_ops s f new) s)) = None /\
+    (forall p, p <> tmp -> p <> f -> lookup p (st_fs (exec (save_ops s f new) s)) = lookup p (st_fs s)).
+  Proof.
+    rewrite save_ops_free, app_assoc, exec_snoc.
+    destruct (step_rename_tmp s _ tmp f new final_mode exec_chm_closed (tmp_name_neq f)) as [_ H].
+    exact H.
+  Qed.
+
+  (* every crash point of one save: a path other than the temporary one has its
+     previous entry, or (after the rename) p = f holds exactly `new` *)
+  Lemma save_crash t p :
+    crash_of (save_ops s f new) t -> p <> tmp ->
+    lookup p (st_fs (exec t s)) = lookup p (st_fs s) \/
+    (t = save_ops s f new /\ p = f /\ content (st_fs (exec t s)) p = Some new).
+  Proof.
+    intros Hc Hp. rewrite save_ops_free in Hc.
+    apply crash_of_app in Hc. destruct Hc as [Hc|[t1 [-> Hc]]].
+    - (* inside open / write / close *)
+      left. inversion Hc as [k|k fd data n Hn]; subst.
+      + destruct k as [|[|[|k]]]; cbn [firstn A].
+        * reflexivity.
+        * apply (wr_only _ _ _ _ _ exec_open_w p Hp).
+        * apply (wr_only _ _ _ _ _ (exec_write_w new) p Hp).
+        * rewrite firstn_nil_any. apply (cl_only _ _ _ _ _ exec_A_closed p Hp).
+      + destruct k as [|[|[|k]]]; cbn [nth_error A] in Hn; try discriminate.
+        * inversion Hn; subst. cbn [firstn A app].
+          apply (wr_only _ _ _ _ _ (exec_write_w (firstn n data)) p Hp).
+        * destruct k; discriminate.
+    - apply crash_of_app in Hc. destruct Hc as [Hc|[t2 [-> Hc]]].
+      + (* inside the optional chmod *)
+        left.
+        assert (Hchm : chm = [] \/ exists m, chm = [Chmod tmp m]).
+        { unfold chm. destruct (lookup f (st_fs s)) as [old|]; [right; eexists; reflexivity|left; reflexivity]. }
+        assert (Ht1 : t1 = [] \/ t1 = chm).
+        { destruct Hchm as [E|[m E]]; rewrite E in Hc.
+          - left. apply crash_of_nil. exact Hc.
+          - inversion Hc as [k|k fd data n Hn]; subst.
+            + destruct k as [|k]; [left; reflexivity|]. right. rewrite E. cbn [firstn]. rewrite firstn_nil_any. reflexivity.
+            + destruct k as [|k]; cbn [nth_error] in Hn; [discriminate|destruct k; discriminate]. }
+        destruct Ht1 as [->| ->].
+        * rewrite app_nil_r. apply (cl_only _ _ _ _ _ exec_A_closed p Hp).
+        * apply (cl_only _ _ _ _ _ exec_chm_closed p Hp).
+      + (* the rename *)
+        assert (Ht2 : t2 = [] \/ t2 = [Rename tmp f]).
+        { inversion Hc as [k|k fd data n Hn]; subst.
+          - destruct k as [|k]; [left; reflexivity|]. right. cbn [firstn]. rewrite firstn_nil_any. reflexivity.
+          - destruct k as [|k]; cbn [nth_error] in Hn; [discriminate|destruct k; discriminate]. }
+        destruct Ht2 as [->| ->].
+        * left. rewrite app_nil_r. apply (cl_only _ _ _ _ _ exec_chm_closed p Hp).
+        * rewrite <- save_ops_free. destruct exec_save_all as [Hf [_ Ho]].
+          destruct (str_eqb p f) eqn:E.
+          -- apply str_eqb_spec in E. subst p. right. split; [reflexivity|]. split; [reflexivity|].
+             unfold content. rewrite Hf. reflexivity.
+          -- left. apply Ho; [exact Hp|]. intro; subst. rewrite str_eqb_refl in E. discriminate.
+  Qed.
+End OneSave.
+
 (* ---------- the relation "old or one of the new contents" ---------- *)
 
 Definition ok_rel (prog : list action) (p : path) (c0 c : option str) : Prop :=
@@ -257,80 +315,99 @@ Proof. intro H. apply (ok_rel_trans a b p c0 c0 c); [apply ok_rel_refl|exact H].
 Lemma ok_rel_weaken_l a b p c0 c : ok_rel a p c0 c -> ok_rel (a ++ b) p c0 c.
 Proof. intro H. apply (ok_rel_trans a b p c0 c c); [exact H|apply ok_rel_refl]. Qed.
 
-(* crash points of one save, in terms of contents *)
+Lemma ok_rel_some prog p c0 c : ok_rel prog p c0 c -> c0 <> None -> c <> None.
+Proof. intros [->|[v [_ ->]]] H; [exact H|discriminate]. Qed.
+
+(* crash points of one save, in terms of contents: p is any path that exists when
+   the save starts (so it cannot be the name the exclusive open creates) *)
 Lemma save_crash_ok s f new t p b :
-  crash_of (save_ops f new) t -> p <> tmp_name f ->
+  crash_of (save_ops s f new) t -> content (st_fs s) p <> None ->
   ok_rel [AIfSaved b f new] p (content (st_fs s) p) (content (st_fs (exec t s)) p) /\
   ok_rel [ASave f new] p (content (st_fs s) p) (content (st_fs (exec t s)) p).
 Proof.
-  intros Hc Hp. destruct (save_crash s f new t p Hc Hp) as [H|[_ [-> H]]].
-  - unfold content. rewrite H. split; apply ok_rel_refl.
-  - split; right; exists new; (split; [simpl; rewrite str_eqb_refl; left; reflexivity|exact H]).
+  intros Hc Hex. destruct (lookup (tmp_name f) (st_fs s)) as [f0|] eqn:Etmp.
+  - (* the name is taken: the open fails, nothing happens *)
+    assert (E : exec t s = s).
+    { unfold save_ops in Hc. rewrite Etmp in Hc.
+      inversion Hc as [k|k fd data n Hn]; subst.
+      - destruct k as [|k]; [reflexivity|]. cbn [firstn]. rewrite firstn_nil_any.
+        unfold exec. cbn [fold_left]. rewrite (step_openexcl_taken s _ f0 Etmp). reflexivity.
+      - destruct k as [|k]; cbn [nth_error] in Hn; [discriminate|destruct k; discriminate]. }
+    rewrite E. split; apply ok_rel_refl.
+  - assert (Hp : p <> tmp_name f).
+    { intros ->. apply Hex. unfold content. rewrite Etmp. reflexivity. }
+    destruct (save_crash s f new Etmp t p Hc Hp) as [H|[_ [-> H]]].
+    + unfold content. rewrite H. split; apply ok_rel_refl.
+    + split; right; exists new; (split; [simpl; rewrite str_eqb_refl; left; reflexivity|exact H]).
+Qed.
+
+Lemma content_exec_chmod s f m p :
+  content (st_fs (exec [Chmod f m] s)) p = content (st_fs s) p.
+Proof.
+  unfold exec. cbn [fold_left step fst].
+  destruct (lookup f (st_fs s)) as [f0|] eqn:El; [|reflexivity]. cbn [fst st_fs].
+  unfold content. destruct (str_eqb p f) eqn:E.
+  - apply str_eqb_spec in E. subst p. rewrite lookup_set_eq, El. reflexivity.
+  - rewrite lookup_set_neq; [reflexivity|]. intro; subst. rewrite str_eqb_refl in E. discriminate.
 Qed.
 
 (* ---------- all crash points of a whole run ---------- *)
 
 Lemma crash_run (D : path -> Prop) prog : forall saved s t,
-  (forall f, In f (saved_paths prog) -> forall p, D p -> p <> tmp_name f) ->
-  crash_of (prog_ops_from saved prog) t ->
+  (forall p, D p -> content (st_fs s) p <> None) ->
+  crash_of (prog_ops_from saved s prog) t ->
   forall p, D p -> ok_rel prog p (content (st_fs s) p) (content (st_fs (exec t s)) p).
 Proof.
-  induction prog as [|a prog IH]; intros saved s t HD Hc p Hp.
+  induction prog as [|a prog IH]; intros saved s t Hex Hc p Hp.
   - apply crash_of_nil in Hc. subst. apply ok_rel_refl.
-  - assert (HD' : forall f, In f (saved_paths prog) -> forall p, D p -> p <> tmp_name f).
-    { intros f Hf. apply HD. destruct a; simpl; auto. }
+  - assert (Hsave : forall f new b saved',
+      crash_of (save_ops s f new ++ prog_ops_from saved' (exec (save_ops s f new) s) prog) t ->
+      ok_rel ([AIfSaved b f new] ++ prog) p (content (st_fs s) p) (content (st_fs (exec t s)) p) /\
+      ok_rel ([ASave f new] ++ prog) p (content (st_fs s) p) (content (st_fs (exec t s)) p)).
+    { intros f new b saved' Hc'. apply crash_of_app in Hc'. destruct Hc' as [Hc'|[t' [-> Hc']]].
+      - destruct (save_crash_ok s f new t p b Hc' (Hex p Hp)) as [H1 H2].
+        split; apply ok_rel_weaken_l; assumption.
+      - rewrite exec_app.
+        assert (Hex' : forall q, D q -> content (st_fs (exec (save_ops s f new) s)) q <> None).
+        { intros q Hq. destruct (save_crash_ok s f new _ q b (crash_of_full _) (Hex q Hq)) as [_ H].
+          apply (ok_rel_some _ _ _ _ H (Hex q Hq)). }
+        destruct (save_crash_ok s f new _ p b (crash_of_full _) (Hex p Hp)) as [H1 H2].
+        pose proof (IH saved' _ t' Hex' Hc' p Hp) as H3.
+        split; [apply (ok_rel_trans _ _ _ _ _ _ H1 H3)|apply (ok_rel_trans _ _ _ _ _ _ H2 H3)]. }
     destruct a as [f new|f m|c f new]; cbn [prog_ops_from] in Hc.
-    + (* ASave *)
-      assert (Hpf : p <> tmp_name f) by (apply (HD f); [left; reflexivity|exact Hp]).
-      apply crash_of_app in Hc. destruct Hc as [Hc|[t' [-> Hc]]].
-      * apply (ok_rel_weaken_l [ASave f new] prog). apply (save_crash_ok s f new t p true Hc Hpf).
-      * rewrite exec_app. apply (ok_rel_trans [ASave f new] prog p _ (content (st_fs (exec (save_ops f new) s)) p)).
-        -- apply (save_crash_ok s f new _ p true (crash_of_full _) Hpf).
-        -- apply (IH true _ t' HD' Hc p Hp).
+    + apply (Hsave f new true _ Hc).
     + (* AChmod *)
-      change (Chmod f (N.ldiff m 73) :: prog_ops_from saved prog)
-        with ([Chmod f (N.ldiff m 73)] ++ prog_ops_from saved prog) in Hc.
-      assert (Hch : forall s0, content (st_fs (exec [Chmod f (N.ldiff m 73)] s0)) p = content (st_fs s0) p).
-      { intro s0. unfold exec. cbn [fold_left step fst].
-        destruct (lookup f (st_fs s0)) as [f0|] eqn:El; [|reflexivity]. cbn [fst st_fs].
-        unfold content. destruct (str_eqb p f) eqn:E.
-        - apply str_eqb_spec in E. subst p. rewrite lookup_set_eq, El. reflexivity.
-        - rewrite lookup_set_neq; [reflexivity|]. intro; subst. rewrite str_eqb_refl in E. discriminate. }
+      change (Chmod f (N.ldiff m 73) :: ?r) with ([Chmod f (N.ldiff m 73)] ++ r) in Hc.
+      change (AChmod f m :: prog) with ([AChmod f m] ++ prog).
       apply crash_of_app in Hc. destruct Hc as [Hc|[t' [-> Hc]]].
       * left. inversion Hc as [k|k fd data n Hn]; subst.
         -- destruct k as [|k]; cbn [firstn]; [reflexivity|].
-           replace (firstn k []) with (@nil op) by (destruct k; reflexivity). apply Hch.
+           rewrite firstn_nil_any. apply content_exec_chmod.
         -- destruct k as [|k]; cbn [nth_error] in Hn; [discriminate|destruct k; discriminate].
-      * rewrite exec_app. apply (ok_rel_weaken_r [AChmod f m] prog). rewrite <- (Hch s).
-        apply (IH saved _ t' HD' Hc p Hp).
+      * rewrite exec_app. apply ok_rel_weaken_r. rewrite <- (content_exec_chmod s f (N.ldiff m 73) p).
+        apply (IH saved _ t'); [|exact Hc|exact Hp].
+        intros q Hq. rewrite content_exec_chmod. apply Hex. exact Hq.
     + (* AIfSaved *)
-      assert (Hpf : p <> tmp_name f) by (apply (HD f); [left; reflexivity|exact Hp]).
       destruct (Bool.eqb saved c).
-      * apply crash_of_app in Hc. destruct Hc as [Hc|[t' [-> Hc]]].
-        -- apply (ok_rel_weaken_l [AIfSaved c f new] prog). apply (save_crash_ok s f new t p c Hc Hpf).
-        -- rewrite exec_app. apply (ok_rel_trans [AIfSaved c f new] prog p _ (content (st_fs (exec (save_ops f new) s)) p)).
-           ++ apply (save_crash_ok s f new _ p c (crash_of_full _) Hpf).
-           ++ apply (IH true _ t' HD' Hc p Hp).
-      * apply (ok_rel_weaken_r [AIfSaved c f new] prog). apply (IH saved s t HD' Hc p Hp).
+      * apply (Hsave f new c _ Hc).
+      * change (AIfSaved c f new :: prog) with ([AIfSaved c f new] ++ prog).
+        apply ok_rel_weaken_r. apply (IH saved s t Hex Hc p Hp).
 Qed.
 
 (* ---------- the theorems ---------- *)
 
-Lemma tmp_free_D init prog :
-  tmp_free init prog ->
-  forall f, In f (saved_paths prog) -> forall p, (exists f0, lookup p init = Some f0) -> p <> tmp_name f.
-Proof.
-  intros H f Hf p [f0 Hl] ->. rewrite (H f Hf) in Hl. discriminate.
-Qed.
+Definition orig (init : fsmap) (p : path) : Prop := exists f0, lookup p init = Some f0.
 
+Lemma orig_exists s p : orig (st_fs s) p -> content (st_fs s) p <> None.
+Proof. intros [f0 H]. unfold content. rewrite H. discriminate. Qed.
+
+(* no guard any more: the exclusive open never touches an existing file *)
 Theorem crash_atomic : forall (s : state) (prog : list action) (t : list op),
-  tmp_free (st_fs s) prog ->
-  crash_of (prog_ops prog) t ->
+  crash_of (prog_ops s prog) t ->
   atomic_at (st_fs s) prog (st_fs (exec t s)).
 Proof.
-  intros s prog t Hfree Hc p f0 Hl.
-  pose proof (crash_run (fun p => exists f0, lookup p (st_fs s) = Some f0) prog false s t
-                (tmp_free_D _ _ Hfree) Hc p (ex_intro _ f0 Hl)) as H.
+  intros s prog t Hc p f0 Hl.
+  pose proof (crash_run (orig (st_fs s)) prog false s t (orig_exists s) Hc p (ex_intro _ f0 Hl)) as H.
   unfold content in H. rewrite Hl in H. cbn [option_map] in H.
   destruct (lookup p (st_fs (exec t s))) as [f1|] eqn:E; cbn [option_map] in H.
   - exists f1. split; [reflexivity|]. destruct H as [H|[v [Hv H]]].
@@ -340,12 +417,27 @@ Proof.
 Qed.
 
 Theorem no_file_disappears : forall (s : state) (prog : list action) (t : list op),
-  tmp_free (st_fs s) prog ->
-  crash_of (prog_ops prog) t ->
+  crash_of (prog_ops s prog) t ->
   no_file_lost (st_fs s) (st_fs (exec t s)).
 Proof.
-  intros s prog t Hfree Hc p f0 Hl.
-  destruct (crash_atomic s prog t Hfree Hc p f0 Hl) as [f1 [H _]]. exists f1. exact H.
+  intros s prog t Hc p f0 Hl.
+  destruct (crash_atomic s prog t Hc p f0 Hl) as [f1 [H _]]. exists f1. exact H.
+Qed.
+
+Lemma save_preserves_nothing_stale s f new :
+  lookup (tmp_name f) (st_fs s) = None ->
+  lookup (tmp_name f) (st_fs (exec (save_ops s f new) s)) = None.
+Proof. intro H. apply (exec_save_all s f new H). Qed.
+
+(* a complete save gives the new file the mode of the file it replaces, and leaves
+   no temporary file *)
+Theorem save_preserves_mode : forall (s : state) (f : path) (new : str) (old : file),
+  lookup (tmp_name f) (st_fs s) = None -> lookup f (st_fs s) = Some old ->
+  let s' := exec (save_ops s f new) s in
+  lookup f (st_fs s') = Some (mkfile new (f_mode old)) /\ lookup (tmp_name f) (st_fs s') = None.
+Proof.
+  intros s f new old Hfree Hold. destruct (exec_save_all s f new Hfree) as [H1 [H2 _]].
+  unfold final_mode in H1. rewrite Hold in H1. split; [exact H1|exact H2].
 Qed.
 
 (* the boolean checker agrees with the Prop on the entries it looks at *)
@@ -387,34 +479,36 @@ Proof.
   apply (first_bad_none init init prog cur E p g Hg f0 Hl).
 Qed.
 
-(* ---------- the guard is needed ---------- *)
+(* ---------- the protocol before the repair did not have this property ---------- *)
 
-Definition unguarded_crash_atomic : Prop :=
-  forall (s : state) (prog : list action) (t : list op),
-    crash_of (prog_ops prog) t -> atomic_at (st_fs s) prog (st_fs (exec t s)).
+Definition trunc_tmp_crash_atomic : Prop :=
+  forall (s : state) (f : path) (new : str) (t : list op),
+    crash_of (trunc_tmp_ops f new) t -> atomic_at (st_fs s) [ASave f new] (st_fs (exec t s)).
 
 Definition ug_a : path := [97].
 Definition ug_state : state :=
   mkstate [(ug_a, mkfile [111] 420); (tmp_name ug_a, mkfile [112; 114; 101] 420)] [] 18.
-Definition ug_prog : list action := [ASave ug_a [110]].
 
-Lemma unguarded_refuted : ~ unguarded_crash_atomic.
+Lemma trunc_tmp_refuted : ~ trunc_tmp_crash_atomic.
 Proof.
-  intro H. specialize (H ug_state ug_prog (firstn 1 (prog_ops ug_prog)) (crash_prefix _ 1)).
+  intro H. specialize (H ug_state ug_a [110] (firstn 1 (trunc_tmp_ops ug_a [110])) (crash_prefix _ 1)).
   destruct (H (tmp_name ug_a) (mkfile [112; 114; 101] 420) eq_refl) as [f1 [Hl Hin]].
   vm_compute in Hl. inversion Hl; subst f1. vm_compute in Hin.
   destruct Hin as [Hin|[]]. discriminate.
 Qed.
 
-(* ... and even the complete run loses that file *)
-Lemma unguarded_file_lost :
-  lookup (tmp_name ug_a) (st_fs (exec (prog_ops ug_prog) ug_state)) = None.
-Proof. vm_compute. reflexivity. Qed.
+(* the repaired protocol on the same tree: the open fails, both files keep their content *)
+Definition ug_prog : list action := [ASave ug_a [110]].
+
+Lemma excl_keeps_both :
+  prog_ops ug_state ug_prog = [OpenExcl 0 (tmp_name ug_a) 438] /\
+  exec (prog_ops ug_state ug_prog) ug_state = ug_state.
+Proof. vm_compute. split; reflexivity. Qed.
 
 (* ---------- the mode fix is one system call ---------- *)
 
 Lemma chmod_atomic : forall (s : state) (f : path) (mode : N) (t : list op),
-  crash_of (prog_ops [AChmod f mode]) t ->
+  crash_of (prog_ops s [AChmod f mode]) t ->
   (exec t s = s \/ exec t s = fst (step s (Chmod f (N.ldiff mode 73)))) /\
   mode_atomic_at (st_fs s) f (N.ldiff mode 73) (st_fs (exec t s)).
 Proof.
@@ -428,15 +522,4 @@ Proof.
   - split; [right; reflexivity|]. intros f0 Hl. unfold exec. cbn [fold_left step fst].
     rewrite Hl. cbn [fst st_fs]. exists (mkfile (f_data f0) (N.ldiff mode 73)).
     rewrite lookup_set_eq. auto.
-Qed.
-
-Definition unguarded_no_file_disappears : Prop :=
-  forall (s : state) (prog : list action) (t : list op),
-    crash_of (prog_ops prog) t -> no_file_lost (st_fs s) (st_fs (exec t s)).
-
-Lemma unguarded_no_file_disappears_refuted : ~ unguarded_no_file_disappears.
-Proof.
-  intro H. specialize (H ug_state ug_prog (prog_ops ug_prog) (crash_of_full _)).
-  destruct (H (tmp_name ug_a) (mkfile [112; 114; 101] 420) eq_refl) as [f1 Hl].
-  rewrite unguarded_file_lost in Hl. discriminate.
 Qed.
